@@ -3,6 +3,7 @@ package harness
 import (
 	"errors"
 	"fmt"
+	"sort"
 	"strings"
 	"sync"
 	"sync/atomic"
@@ -233,11 +234,33 @@ func TestC10(t *testing.T) {
 		}
 		exhaustive := len(todo) <= maxSites
 		if !exhaustive {
-			// sample without replacement, keeping every site of the activation / payout blocks likely
+			// stratified sample without replacement: round-robin over site classes
+			// (upstream dblock/eblock/entry, SQL begin/exec/query/stmt-exec/commit),
+			// so that rare classes are always represented
 			idx := rapid.Permutation(seqInts(len(todo))).Draw(rt, "siteOrder")
+			byClass := map[string][]faultSite{}
+			var classes []string
+			for _, i := range idx {
+				c := todo[i].Layer + ":" + strings.Fields(todo[i].Desc)[0]
+				if _, ok := byClass[c]; !ok {
+					classes = append(classes, c)
+				}
+				byClass[c] = append(byClass[c], todo[i])
+			}
+			sort.Strings(classes)
 			pick := make([]faultSite, 0, maxSites)
-			for _, i := range idx[:maxSites] {
-				pick = append(pick, todo[i])
+			for len(pick) < maxSites {
+				progressed := false
+				for _, c := range classes {
+					if l := byClass[c]; len(l) > 0 && len(pick) < maxSites {
+						pick = append(pick, l[0])
+						byClass[c] = l[1:]
+						progressed = true
+					}
+				}
+				if !progressed {
+					break
+				}
 			}
 			todo = pick
 		}
